@@ -1,5 +1,6 @@
 import Driver.WT
 import Driver.Adm
+import Driver.Utl
 /- Line-protocol oracle: one op per input line, one canonical answer per
    output line. The first token selects the model family. -/
 open Driver
@@ -7,11 +8,14 @@ open Driver
 structure St where
   wt : WTState := {}
   adm : AdmState := {}
+  utl : UtlState := {}
 
 def step (s : St) (line : String) : St × String :=
   match (line.trimAscii.toString.splitOn " ").filter (· ≠ "") with
   | "wt" :: rest => let (w, o) := wtStep s.wt rest; ({ s with wt := w }, o)
   | "adm" :: rest => let (a, o) := admStep s.adm rest; ({ s with adm := a }, o)
+  | "utl" :: rest => let (a, o) := utlStep s.utl rest; ({ s with utl := a }, o)
+  | "yeast" :: rest => let (a, o) := yeastStep s.utl rest; ({ s with utl := a }, o)
   | _ => (s, "bad-op")
 
 partial def loop (h : IO.FS.Stream) (out : IO.FS.Stream) (s : St) : IO Unit := do
